@@ -638,6 +638,21 @@ func main() {
 	sb.WriteString(strings.Join(cc, ";\n"))
 	sb.WriteString("\n].\n")
 
+	// decision trees of the handler-style functions (trees.go)
+	gt := genTrees(fm, []string{"Raft.requestVote", "Raft.requestPreVote", "Raft.persistVote", "Raft.configurationChangeChIfStable",
+		"Raft.timeoutNow", "Raft.setCurrentTerm", "Raft.compactLogsWithTrailing", "Raft.quorumSize", "Raft.checkRPCHeader"})
+	gout := filepath.Join(os.Args[2], "GenTrees.v")
+	gold, _ := os.ReadFile(gout)
+	if string(gold) != gt {
+		if err := os.WriteFile(gout, []byte(gt), 0o644); err != nil {
+			fmt.Fprintln(os.Stderr, err)
+			os.Exit(2)
+		}
+		fmt.Printf("GenTrees.v regenerated from %s: CHANGED\n", dir)
+	} else {
+		fmt.Printf("GenTrees.v regenerated from %s: unchanged\n", dir)
+	}
+
 	out := filepath.Join(os.Args[2], "LoopTable.v")
 	old, _ := os.ReadFile(out)
 	if string(old) == sb.String() {
